@@ -11,8 +11,8 @@
    full statement is the Prop Proofs.WriterInvProofs.smiles_invariant_discrete_goal and is NOT proved.  The stereo
    refinement (`_chiral_morgan`) is not covered by theorems: search in harness/checks/C01.py. *)
 From Coq Require Import ZArith List Bool Permutation Sorting.Sorted String.
-From Model Require Import PyBase PyHash Graph Morgan Writer ChiralMorgan.
-From Proofs Require Import MorganProofs WriterInvProofs WriterStereoExt BfsExt BfsExt2 TraverseOrderExt InsertionOrderExt InsertionOrderExt2 ChiralMorganProofs.
+From Model Require Import PyBase PyHash Graph Morgan Stereo StereoRegistry Writer ChiralMorgan.
+From Proofs Require Import MorganProofs WriterInvProofs WriterStereoExt BfsExt BfsExt2 TraverseOrderExt InsertionOrderExt InsertionOrderExt2 ChiralMorganProofs StereoProofs StereoOrderExt StereoOrderExt2 RegistryRemapExt.
 Import ListNotations.
 Open Scope Z_scope.
 
@@ -623,3 +623,89 @@ Theorem C01_multi_component_example :
   smiles_text exm_g' ext_w' (fun n => n) exw_o no_stabs = Ok ("CC(C)O.O"%string, [9; 8; 7; 6; 5]).
 Proof. exact multi_component_example. Qed.
 Print Assumptions C01_multi_component_example.
+
+(* ---- stereo marks under insertion-order changes ---- *)
+(* the stored sign of a tetrahedron is relative to the insertion order of its neighbours.  General re-ordering law (from the parity
+   property of the generated table, C12): when the registry lists the four neighbours in the order `sel order q` and the stored
+   sign is the old sign xor the parity of q, EVERY neighbour arrangement (valid or not) gets the same result *)
+Theorem C01_translate_th_reorder_any : forall (isH : Z -> bool) (a b c d : Z), NoDup [a; b; c; d] ->
+  forall (q env : list Z) (sg : bool), In q perms4 ->
+  translate_th isH (sel [a; b; c; d] q) env (xorb sg (odd_perm q)) = translate_th isH [a; b; c; d] env sg.
+Proof. exact translate_th_reorder_any. Qed.
+Print Assumptions C01_translate_th_reorder_any.
+
+(* strings with atom stereo marks under ANY renumbering and ANY insertion order: g and g' agree after the stereo fields are erased
+   ([strip]); "the same stereoisomer" = the atom marks of the two labelled molecules agree for every neighbour table (hypothesis 8);
+   no cis / trans labels.  _partial: the cis/trans map under insertion-order changes is not carried through *)
+Theorem C01_smiles_invariant_discrete_atom_stereo_insertion_order_partial :
+  forall (g g' : mol) (s w w' tb tb' : Z -> Z) (o : opts) (tabs tabs' : stabs),
+  wf_mol (strip g) = true -> wf_mol (strip g') = true -> (forall x y, s x = s y -> x = y) ->
+  mol_perm (ren_mol s (strip g)) (strip g') -> inj_on (ids g) w -> (forall n, In n (ids g) -> w' (s n) = w n) -> o_mapping o = false ->
+  (forall n a a' adj, atom_of g n = Some a -> atom_of g' (s n) = Some a' ->
+     stereo_mark g' o tabs' (s n) (ren_vis s adj) a' = stereo_mark g o tabs n adj a) ->
+  stereo_bond_atoms g = [] -> stereo_bond_atoms g' = [] ->
+  smiles_text g' w' tb' o tabs' = map_order s (smiles_text g w tb o tabs).
+Proof. exact smiles_text_atom_stereo_perm. Qed.
+Print Assumptions C01_smiles_invariant_discrete_atom_stereo_insertion_order_partial.
+
+(* hypothesis 8 discharged by the parity law: every labelled atom is a tetrahedron with four listed neighbours whose registry entry
+   in g' lists the renamed neighbours in another order and whose sign was re-expressed by the parity of that re-ordering (what
+   add_atom_stereo does).  _partial: centres with an implicit / explicit hydrogen, allenes and cis/trans labels are not covered *)
+Theorem C01_smiles_invariant_discrete_tetrahedral_insertion_order_partial :
+  forall (g g' : mol) (s w w' tb tb' : Z -> Z) (o : opts) (tabs tabs' : stabs),
+  wf_mol (strip g) = true -> wf_mol (strip g') = true -> (forall x y, s x = s y -> x = y) ->
+  mol_perm (ren_mol s (strip g)) (strip g') -> inj_on (ids g) w -> (forall n, In n (ids g) -> w' (s n) = w n) -> o_mapping o = false ->
+  stereo_atoms_reordered g g' s tabs tabs' -> stereo_bond_atoms g = [] -> stereo_bond_atoms g' = [] ->
+  smiles_text g' w' tb' o tabs' = map_order s (smiles_text g w tb o tabs).
+Proof. exact smiles_invariant_discrete_tetrahedral_insertion_order. Qed.
+Print Assumptions C01_smiles_invariant_discrete_tetrahedral_insertion_order_partial.
+
+(* non-vacuity: CFClBrI renumbered n -> 10 - n, the neighbours of the centre re-inserted with the first two exchanged: the stored
+   sign flips, the string is the same *)
+Theorem C01_tetrahedral_insertion_order_example :
+  wf_mol (strip exq_g) = true /\ wf_mol (strip exq_g') = true /\ (forall x y, ext_s x = ext_s y -> x = y) /\
+  mol_perm (ren_mol ext_s (strip exq_g)) (strip exq_g') /\ inj_on (ids exq_g) exq_w /\ (forall n, In n (ids exq_g) -> exq_w' (ext_s n) = exq_w n) /\
+  stereo_atoms_reordered exq_g exq_g' ext_s exq_tabs exq_tabs' /\ stereo_bond_atoms exq_g = [] /\ stereo_bond_atoms exq_g' = [] /\
+  smiles_text exq_g exq_w (fun n => n) default_opts exq_tabs = Ok ("[C@](F)(Cl)(Br)I"%string, [1; 2; 3; 4; 5]) /\
+  smiles_text exq_g' exq_w' (fun n => n) default_opts exq_tabs' = Ok ("[C@](F)(Cl)(Br)I"%string, [9; 8; 7; 6; 5]).
+Proof. exact tetrahedral_insertion_order_example. Qed.
+Print Assumptions C01_tetrahedral_insertion_order_example.
+
+(* ---- centres with three listed neighbours (implicit hydrogen, or an explicit hydrogen given in the arrangement) ---- *)
+Theorem C01_translate_th_reorder_any3 : forall (isH : Z -> bool) (a b c : Z), NoDup [a; b; c] ->
+  isH a = false /\ isH b = false /\ isH c = false ->
+  forall (q env : list Z) (sg : bool), In q perms3 ->
+  translate_th isH (sel [a; b; c] q) env (xorb sg (odd_perm (q ++ [3]))) = translate_th isH [a; b; c] env sg.
+Proof. exact translate_th_reorder_any3. Qed.
+Print Assumptions C01_translate_th_reorder_any3.
+
+(* DESIGN appendix A smiles_invariant_discrete with tetrahedral marks ([C@], [C@H], explicit [H]) under ANY renumbering and ANY
+   insertion order, any number of components, injective weights, any tie-breaks: the labels of the re-inserted molecule are the old
+   labels re-expressed for the new neighbour orders by permutation parity.  _partial: no allene and no cis/trans labels *)
+Theorem C01_smiles_invariant_discrete_tetrahedral_insertion_order2_partial :
+  forall (g g' : mol) (s w w' tb tb' : Z -> Z) (o : opts) (tabs tabs' : stabs),
+  wf_mol (strip g) = true -> wf_mol (strip g') = true -> (forall x y, s x = s y -> x = y) ->
+  mol_perm (ren_mol s (strip g)) (strip g') -> inj_on (ids g) w -> (forall n, In n (ids g) -> w' (s n) = w n) -> o_mapping o = false ->
+  stereo_atoms_reordered2 g g' s tabs tabs' -> stereo_bond_atoms g = [] -> stereo_bond_atoms g' = [] ->
+  smiles_text g' w' tb' o tabs' = map_order s (smiles_text g w tb o tabs).
+Proof. exact smiles_invariant_discrete_tetrahedral_insertion_order2. Qed.
+Print Assumptions C01_smiles_invariant_discrete_tetrahedral_insertion_order2_partial.
+
+Theorem C01_tetrahedral_h_insertion_order_example :
+  wf_mol (strip exh_g) = true /\ wf_mol (strip exh_g') = true /\ (forall x y, ext_s x = ext_s y -> x = y) /\
+  mol_perm (ren_mol ext_s (strip exh_g)) (strip exh_g') /\ inj_on (ids exh_g) exq_w /\ (forall n, In n (ids exh_g) -> exq_w' (ext_s n) = exq_w n) /\
+  stereo_atoms_reordered2 exh_g exh_g' ext_s exs_tabs exh_tabs' /\ stereo_bond_atoms exh_g = [] /\ stereo_bond_atoms exh_g' = [] /\
+  smiles_text exh_g exq_w (fun n => n) default_opts exs_tabs = Ok ("C[C@H](N)O"%string, [1; 2; 3; 4]) /\
+  smiles_text exh_g' exq_w' (fun n => n) default_opts exh_tabs' = Ok ("C[C@H](N)O"%string, [9; 8; 7; 6]).
+Proof. exact tetrahedral_h_insertion_order_example. Qed.
+Print Assumptions C01_tetrahedral_h_insertion_order_example.
+
+(* ---- remap() with the registries computed by the registry model of C12 (Model.StereoRegistry): no registry hypothesis ---- *)
+Theorem C01_smiles_invariant_discrete_remap_registries :
+  forall (fs fd : Z -> bool) (g : mol) (s w w' tb tb' : Z -> Z) (o : opts) (r : registries),
+  wf_mol g = true -> (forall x y, s x = s y -> x = y) -> s 0 = 0 -> inj_on (ids g) w -> (forall n, In n (ids g) -> w' (s n) = w n) ->
+  o_mapping o = false -> registries_of fs fd g = Ok r ->
+  exists r', registries_of fs fd (ren_mol s g) = Ok r' /\
+             smiles_text (ren_mol s g) w' tb' o (stabs_of_reg r') = map_order s (smiles_text g w tb o (stabs_of_reg r)).
+Proof. exact smiles_invariant_discrete_remap_registries. Qed.
+Print Assumptions C01_smiles_invariant_discrete_remap_registries.
